@@ -70,6 +70,8 @@ ASSUMPTIONS = [
 
 TRANSFORMS = [("id", 1.0, 0.0, 0.0), ("translate", 1.0, 1000.0, -77.0), ("scale", 2.0 ** 10, 0.0, 0.0),
               ("scale", 2.0 ** -10, 0.0, 0.0), ("scale", 1.0e-3, 0.0, 0.0),
+              # small polygons: edge lengths 2.5e-5 and 3.8e-6, still 380 .. 2500 x the absolute tolerance 1e-8
+              ("scale", 1.0e-4, 0.0, 0.0), ("scale", 2.0 ** -16, 0.0, 0.0),
               # far from the origin relative to the polygon size (projected coordinates): offset/size ~ 1e7, exact in float64
               ("translate-far", 1.0, 1.0e7, -2.0e7)]
 SEED_TRANSFORMS = [("affine", 3.0, -3.25, 17.5), ("affine", 2.0 ** -4, 0.0, 1.0e4),
@@ -772,7 +774,8 @@ def run_ladder_unit(unit, ctx):
         base, PX, PY, exp, onedge = check_ladder_polygon(ctx, gutils, family, n, trs)
         check_layouts(ctx, gutils, base, PX, PY, trs[0], {"kind": "pip-layout", "family": family, "n": n, "transform": list(trs[0])})
         # far from the origin: float32 cannot hold these points, int64 can
-        check_layouts(ctx, gutils, base, PX, PY, trs[5], {"kind": "pip-layout", "family": family, "n": n, "transform": list(trs[5])})
+        far = [t for t in trs if t[0] == "translate-far"][0]
+        check_layouts(ctx, gutils, base, PX, PY, far, {"kind": "pip-layout", "family": family, "n": n, "transform": list(far)})
     elif kind == "npoints":
         name, n = unit["polygon"], unit["n"]
         ctx.case(False, n=0, sample={"kind": "pip-npoints", "polygon": name, "n": n, "npoints": unit["sizes"][0],
